@@ -30,6 +30,9 @@ pub struct GenCfg
     pub cleans : u64,           // weight of clean operations
     pub goals : bool,
     pub end_with_build : bool,
+    pub copy_rules : bool,      // mostly single-source, single-target rules with empty salt ("cp")
+    pub edits_only : bool,      // user operations are source edits/reverts only
+    pub fail_rate : u64,        // per-rule chance (out of 24) of a failing construct when `failing`
 }
 
 impl GenCfg
@@ -56,6 +59,9 @@ impl GenCfg
             cleans : 10,
             goals : true,
             end_with_build : true,
+            copy_rules : false,
+            edits_only : false,
+            fail_rate : 4,
         }
     }
 }
@@ -162,9 +168,10 @@ impl Gen
 
     fn make_rule(&mut self, pos : usize) -> SRule
     {
-        let n_targets = match self.rng.below(10) { 0..=5 => 1, 6..=8 => 2, _ => 3 };
+        let copyish = self.cfg.copy_rules && self.rng.chance(4, 5);
+        let n_targets = if copyish { 1 } else { match self.rng.below(10) { 0..=5 => 1, 6..=8 => 2, _ => 3 } };
         let avail = self.available_sources(pos);
-        let n_sources = std::cmp::min(avail.len(), self.rng.range(1, 4));
+        let n_sources = if copyish { 1 } else { std::cmp::min(avail.len(), self.rng.range(1, 4)) };
         let mut sources : Vec<String> = vec![];
         let earlier_targets : Vec<String> = self.rules[..pos].iter().flat_map(|r| r.targets.clone()).collect();
         while sources.len() < n_sources
@@ -188,18 +195,17 @@ impl Gen
                 inputs.push(self.rng.pick(&sources).clone());
             }
             let exec = self.cfg.exec && self.rng.chance(1, 5);
-            let salt = self.salt();
+            let salt = if copyish { "".to_string() } else { self.salt() };
             lines.push(Line::Emit{ target : t.clone(), salt : salt, inputs : inputs, exec : exec });
             targets.push(t);
         }
-        if self.cfg.failing
+        if self.cfg.failing && self.rng.below(24) < self.cfg.fail_rate
         {
-            match self.rng.below(24)
+            match self.rng.below(4)
             {
                 0 => lines.insert(0, Line::Fail),
                 1 | 2 => { let s = self.rng.pick(&sources).clone(); lines.insert(0, Line::FailIf{ input : s }); },
-                3 => { if lines.len() > 1 || self.rng.chance(1, 2) { let k = self.rng.below(lines.len() as u64) as usize; lines.remove(k); } },
-                _ => {},
+                _ => { if lines.len() > 1 || self.rng.chance(1, 2) { let k = self.rng.below(lines.len() as u64) as usize; lines.remove(k); } },
             }
         }
         self.rng.shuffle(&mut targets);
@@ -484,7 +490,7 @@ impl Gen
 
     fn user_op(&mut self, ops : &mut Vec<Op>)
     {
-        let roll = self.rng.below(100);
+        let roll = if self.cfg.edits_only { 0 } else { self.rng.below(100) };
         let targets = self.all_targets();
         if roll < 30
         {
